@@ -1,5 +1,66 @@
-(* C15 — placeholder, replaced as the proofs land. *)
-From PM Require Import Lib.Bytes Lib.PyStr Http.Chunk Http.Parser Http.Builders Http.Grammar.
-Theorem C15_placeholder : build_http_header [1] [2] = [1; 58; 32; 2].
-Proof. reflexivity. Qed.
-Print Assumptions C15_placeholder.
+(* C15 — HTTP message and chunked codecs round-trip and agree with a reference.
+   Statements only; proofs are in Http/CodecFacts.v and Http/BuildersFacts.v.
+   Models: Http/Builders.v (utils.py builders, HttpParser.build/build_response/update_body),
+   Http/Chunk.v, Http/Parser.v.  Reference side (specifications): Http/Grammar.v. *)
+From PM Require Import Lib.Bytes Lib.PyStr Lib.PyStrFacts2 Http.Url Http.Chunk Http.ChunkFacts Http.Parser
+  Http.Builders Http.BuildersFacts Http.Grammar Http.CodecFacts.
+From Coq Require Import ZArith.
+
+(* ---------------------------------------------------------------------------------------------- *)
+(* chunked codec                                                                                   *)
+
+(* The chunked encoder and decoder are inverses for EVERY body (the empty one included) and EVERY
+   chunk size, and the decoder stops exactly at the end of the encoding: what follows is handed back. *)
+Theorem C15_chunks_roundtrip : forall body k t, 0 < k ->
+  exists w, to_chunks body k = Ok w /\
+            chunk_parse new_chunkp (w ++ t) =
+            Ok (t, {| cst := CCOMPLETE; cbody := body; cchunk := []; csize := None |}).
+Proof. exact chunks_roundtrip. Qed.
+Print Assumptions C15_chunks_roundtrip.
+
+(* ... and what the encoder emits is a chunked body of the RFC 7230 grammar that the REFERENCE decoder
+   maps back to the body. *)
+Theorem C15_to_chunks_valid : forall body k, 0 < k ->
+  exists s, wf_chunked s = true /\ to_chunks body k = Ok (render_chunked s) /\ ref_dechunk s = body.
+Proof. exact to_chunks_valid. Qed.
+Print Assumptions C15_to_chunks_valid.
+
+(* The decoder agrees with the reference decoder on every valid chunked stream: any chunk layout,
+   chunk-size in hex of any case with leading zeros, chunk extensions, last-chunk with extensions,
+   trailer fields; same body, same remainder.  [ref_dechunk] is defined by recursion on the abstract
+   syntax of RFC 7230 section 4.1 (Http/Grammar.v). *)
+Theorem C15_dechunk_agrees_ref : forall s t, wf_chunked s = true ->
+  chunk_parse new_chunkp (render_chunked s ++ t) =
+  Ok (t, {| cst := CCOMPLETE; cbody := ref_dechunk s; cchunk := []; csize := None |}).
+Proof. exact dechunk_agrees_ref. Qed.
+Print Assumptions C15_dechunk_agrees_ref.
+
+(* The same on raw bytes, against the executable reference decoder (the one cross-validated with h11
+   on every run): wherever it accepts, the model decoder returns the same body and remainder. *)
+Theorem C15_dechunk_agrees_ref_bytes : forall raw body rest, ref_dechunk_bytes raw = Some (body, rest) ->
+  chunk_parse new_chunkp raw =
+  Ok (rest, {| cst := CCOMPLETE; cbody := body; cchunk := []; csize := None |}).
+Proof. exact dechunk_agrees_ref_bytes. Qed.
+Print Assumptions C15_dechunk_agrees_ref_bytes.
+
+(* ---------------------------------------------------------------------------------------------- *)
+(* update_body                                                                                     *)
+
+(* After update_body the message is consistent.  gzip is a pair of functions with the single
+   assumed law gunz (gz x) = x.  The stored body is the new data, compressed iff the message says
+   "Content-Encoding: gzip" (then it decompresses to the data; any other Content-Encoding header is
+   removed); Content-Type is set; a chunked message keeps no Content-Length (the body stays decoded,
+   it is chunk-encoded once, by build: see C15_update_body_rebuild_*), any other message announces
+   exactly the stored length. *)
+Theorem C15_update_body : forall (gz gunz : bytes -> bytes), (forall x, gunz (gz x) = x) ->
+  forall p data ct, headers_wf p ->
+  exists p', update_body gz p data ct = Ok p' /\
+    body p' = Some (stored_body gz p data) /\
+    (says_gzip p = true -> gunz (stored_body gz p data) = data) /\
+    (says_gzip p = false -> stored_body gz p data = data /\ has_header p' L_CONTENT_ENCODING = false) /\
+    header p' H_CONTENT_TYPE = Ok ct /\
+    is_chunked_encoded p' = is_chunked_encoded p /\
+    (if is_chunked_encoded p then has_header p' CONTENT_LENGTH = false
+     else header p' CONTENT_LENGTH = Ok (dec_of_N (len (stored_body gz p data)))).
+Proof. exact update_body_spec. Qed.
+Print Assumptions C15_update_body.
